@@ -31,7 +31,7 @@ fn describe() -> Describe {
         level: "model_checking",
         rule: "every IL function on <=2 blocks (all successor shapes incl. self-loops, single conditional edges, non-exhaustive guard \
                pairs; thorough adds 3 blocks with three-way guards) x every distribution of <=2 (thorough 3) instructions from a \
-               21-operation alphabet (assign/copy/add/zext/trun, overlapping 8..64-bit stores and loads, nop, intrinsic, indirect \
+               23-operation alphabet (assign/copy/add/zext/trun, overlapping 8..64-bit stores and loads, nop, intrinsic, indirect \
                branches to an existing instruction / liftable code / unmapped, division by a possibly-zero scalar, read of an \
                undefined scalar) x both endiannesses x 9 initial scalar valuations x {empty, pre-filled} memory. Each run steps \
                executor::Driver and the reference interpreter in lock-step: location, every scalar and the memory window are compared \
@@ -75,6 +75,9 @@ fn alphabet() -> Alphabet {
         il::Operation::store(c(0x101, 64), E::scalar(q())),
         il::Operation::nop(),
         il::Operation::intrinsic(il::Intrinsic::new("cpuid", "cpuid", vec![], None, None, vec![0x0f, 0xa2])),
+        // intrinsics that DECLARE what they write (nothing / one scalar): still not executable
+        il::Operation::intrinsic(il::Intrinsic::new("syscall", "syscall", vec![], Some(vec![]), Some(vec![]), vec![0x0f, 0x05])),
+        il::Operation::intrinsic(il::Intrinsic::new("rdtsc", "rdtsc", vec![], Some(vec![E::scalar(il::scalar("a", 8))]), Some(vec![]), vec![0x0f, 0x31])),
         il::Operation::branch(c(BASE + 1, 64)),
         il::Operation::branch(c(CODE, 64)),
         il::Operation::branch(c(0x9000, 64)),
